@@ -1,4 +1,6 @@
-/-! M-DB prototype: executable model of db.go / shardimage.go / nodehostimage.go (core Lean only) -/
+import DrummerVerif.Gen.GenConst
+/-! M-DB: executable model of db.go / shardimage.go / nodehostimage.go (core Lean only).
+    Constants come from `Gen/GenConst.lean`, regenerated from the Go packages on every run. -/
 namespace Drummer
 
 abbrev Addr := String
@@ -13,9 +15,9 @@ instance : Monad Outcome where
   pure := .ok
   bind x f := match x with | .ok a => f a | .panic w => .panic w
 
-def tickInterval : Nat := 5
-def nodeHostTTL : Nat := 60
-def launchDeadlineTick : Nat := 24
+def tickInterval : Nat := Gen.tickIntervalSecond
+def nodeHostTTL : Nat := Gen.nodeHostTTL
+def launchDeadlineTick : Nat := Gen.launchDeadlineTick
 def usub64 (a b : Nat) : Nat := (a + 18446744073709551616 - b) % 18446744073709551616
 
 structure Replica where
@@ -263,9 +265,9 @@ def kvGet (m : List (Bytes × KVRec)) (k : Bytes) : Option KVRec := (m.find? (·
 def kvPut (m : List (Bytes × KVRec)) (k : Bytes) (v : KVRec) : List (Bytes × KVRec) :=
   (k, v) :: m.filter (·.1 != k)
 
-def DBKVUpdated := 0
-def DBKVFinalized := 1
-def DBKVRejected := 2
+def DBKVUpdated := Gen.DBKVUpdated
+def DBKVFinalized := Gen.DBKVFinalized
+def DBKVRejected := Gen.DBKVRejected
 
 def DB.applyKV (d : DB) (kv : KVRec) : Outcome (DB × Nat) :=
   if kv.key.isEmpty || kv.value.isEmpty then .panic "key and value can not be empty" else
@@ -283,9 +285,9 @@ def DB.bootstrapped (d : DB) : Bool := (kvGet d.kv bootstrappedKey).isSome
 def DB.applyShard (d : DB) (c : ShardDef) : Outcome (DB × Nat) :=
   if c.members.isEmpty then .panic "DrummerChange.Members should be of size 1 at least" else
   if c.appName.isEmpty then .panic "empty app name is not allowed" else
-  if d.bootstrapped then .ok (d, 2) else
-  if d.shards.any (·.shardId == c.shardId) then .ok (d, 1) else
-  .ok ({ d with shards := c :: d.shards }, 0)
+  if d.bootstrapped then .ok (d, Gen.DBBootstrapped) else
+  if d.shards.any (·.shardId == c.shardId) then .ok (d, Gen.ShardExists) else
+  .ok ({ d with shards := c :: d.shards }, Gen.DBUpdated)
 
 def DB.launchedShards (d : DB) : Nat :=
   (d.image.shards.filter fun c => c.replicas.all (·.tick > 0)).length
